@@ -511,6 +511,36 @@ theorem cx_emission_between_extremes (c : Consts α) (sqrt : α → α) (s : CXS
   · intro sc hsc
     exact hn sc.1 (List.of_mem_zip hsc).1
 
+/-- as-is behaviour outside the physical domain: at receiver temperature exactly 0 the code emits nothing, whatever
+the densities (the formula theorems above therefore carry `r.temperature ≠ 0`) -/
+theorem cx_zero_temperature_skip (c : Consts α) (sqrt : α → α) (s : CXScene α) (ground : Coeff5 α)
+    (excited : List (Coeff5 α × List (Coeff3 α))) (r : Species α)
+    (hr : s.species[s.receiver]? = some r) (h : r.temperature = 0) :
+    cxEmission c sqrt s ground excited = .skip := by
+  unfold cxEmission
+  simp only [hr, beq_iff_eq, h, if_true]
+  split_ifs <;> rfl
+
+/-- inside the quantifier `z_effective` cannot raise: a receiver ion with positive density makes `Σ n Z² > 0` -/
+theorem ions_present_of_receiver (sp : List (Species α)) (r : Species α) (hmem : r ∈ sp) (hZ : 1 ≤ r.charge)
+    (hn : ∀ x ∈ sp, 0 ≤ x.density) (hr : 0 < r.density) :
+    ((ions sp).map fun x => x.density * (x.charge : α) * (x.charge : α)).sum ≠ 0 := by
+  have hri : r ∈ ions sp := by unfold ions; simp [hmem, hZ]
+  have hterm : 0 < r.density * (r.charge : α) * (r.charge : α) := by
+    have : (1 : α) ≤ (r.charge : α) := by exact_mod_cast hZ
+    have h0 : (0 : α) < (r.charge : α) := by linarith
+    positivity
+  have hall : ∀ y ∈ (ions sp).map (fun x => x.density * (x.charge : α) * (x.charge : α)), 0 ≤ y := by
+    intro y hy
+    obtain ⟨x, hx, rfl⟩ := List.mem_map.mp hy
+    have hxs : x ∈ sp := by unfold ions at hx; exact (List.mem_filter.mp hx).1
+    have := hn x hxs
+    positivity
+  have := List.single_le_sum hall _ (List.mem_map.mpr ⟨r, hri, rfl⟩)
+  intro h0
+  rw [h0] at this
+  linarith
+
 /-! ## non-vacuity -/
 
 /-- the `sqrt` contract is met by the real square root -/
